@@ -181,7 +181,7 @@ ClassSeqs(nn) ==
 Next ==
     \/ Copy
     \/ FreezeExogenous
-    \/ (wf /\ \E c \in ClassSeqs(n) : Run("ok", c))
+    \/ (phase = "frozen" /\ wf /\ \E c \in ClassSeqs(n) : Run("ok", c))    \* (guard first: cheap for TLC)
     \/ (wf /\ \E r \in {"conv", "valerr"} : Run(r, << >>))
     \/ Run("other", << >>)
     \/ \E v \in 1..n : Judge(v)
